@@ -305,6 +305,37 @@ func (s *Sym) nary(name string, args []*RF) *RF {
 			return f
 		}
 	}
+	// parity: x%2 == 1 || x%2 == -1  is  x%2 != 0 (Go's % yields -1, 0 or 1 for modulus 2);
+	// dually  x%2 != 1 && x%2 != -1  is  x%2 == 0
+	{
+		eq, res := "cmp==", "cmp!="
+		if name == "land" {
+			eq, res = "cmp!=", "cmp=="
+		}
+		for i := 0; i < len(flat); i++ {
+			ai := flat[i].SingleAtom()
+			if ai == nil || ai.Name != eq {
+				continue
+			}
+			mi, ci := parityOperand(ai)
+			if mi == nil {
+				continue
+			}
+			for j := i + 1; j < len(flat); j++ {
+				aj := flat[j].SingleAtom()
+				if aj == nil || aj.Name != eq {
+					continue
+				}
+				mj, cj := parityOperand(aj)
+				if mj != nil && mj.Equal(mi) && ci == -cj {
+					merged := s.MakeFn(res, mi, s.Int(0))
+					rest := append(append([]*RF{}, flat[:i]...), flat[i+1:j]...)
+					rest = append(rest, flat[j+1:]...)
+					return s.nary(name, append(rest, merged))
+				}
+			}
+		}
+	}
 	// complementary pair: a ∨ ¬a = true ; a ∧ ¬a = false
 	for i, f := range flat {
 		nf := s.Not(f)
@@ -453,4 +484,28 @@ func (s *Sym) BoolEquiv(a, b *RF) bool {
 		}
 	}
 	return true
+}
+
+// parityOperand: for a comparison of imod(x,2) with +1 or -1, the imod term and the constant.
+func parityOperand(at *Atom) (*RF, int) {
+	if len(at.Args) != 2 {
+		return nil, 0
+	}
+	for k := 0; k < 2; k++ {
+		m := at.Args[k].SingleAtom()
+		c, isC := at.Args[1-k].IsConst()
+		if m == nil || m.Name != "imod" || len(m.Args) != 2 || !isC || !c.IsInt() {
+			continue
+		}
+		if two, ok := m.Args[1].IsConst(); !ok || two.Cmp(big.NewRat(2, 1)) != 0 {
+			continue
+		}
+		switch c.Num().Int64() {
+		case 1:
+			return at.Args[k], 1
+		case -1:
+			return at.Args[k], -1
+		}
+	}
+	return nil, 0
 }
